@@ -95,6 +95,14 @@ func Build(spec engine.CartSpec) ([]byte, error) {
 		}
 		for v := 0x40; v <= 0x60; v += 8 {
 			copy(img[v:], h)
+			if spec.HandlerTag {
+				// a handler that identifies itself: every byte A5 becomes the low byte of its vector
+				for i := range h {
+					if h[i] == 0xa5 {
+						img[v+i] = byte(v)
+					}
+				}
+			}
 		}
 	}
 	entry := spec.Entry
